@@ -237,7 +237,9 @@ pub fn run(seed: u64, ntraces: usize) {
         let mut t0 = 1000 + r.below(1000);
         w.set_time(t0);
         let nsets = if t % 8 == 7 { 0 } else { 1 + r.below(2) as usize };
-        let sets: Vec<SSet> = (0..nsets).map(|_| gen_valid_set(&mut r)).collect();
+        let mut sets: Vec<SSet> = (0..nsets).map(|_| gen_valid_set(&mut r)).collect();
+        // a deployment naming a malformed signer set must be refused as a whole (t % 8 == 6)
+        if t % 8 == 6 { let (_, bad) = gen_bad_set(&mut r); if r.chance(1, 2) { sets.push(bad); } else { sets.insert(0, bad); } }
         let op_arg = if no_operator { vec![0u8; 32] } else { operator.to_vec() };
         let mut args = vec![big(retention), domain.clone(), big(min_delay), op_arg.clone()];
         for s in &sets { args.push(s.encode(0)); }
@@ -247,7 +249,7 @@ pub fn run(seed: u64, ntraces: usize) {
         let mut g = G { w, gw: gw.clone(), owner: owner.clone(), operator: operator.clone(), users: users.clone(), pool: Pool::new(), tab: SigTab(vec![]),
             sets, retention, domain, min_delay, last_rot: t0, sent: vec![] };
         let mut steps: Vec<Value> = vec![];
-        let nops = 6 + r.below(10) as usize;
+        let nops = if st.res.result_status != 0 { 0 } else { 6 + r.below(10) as usize };      // a refused deployment leaves no contract to call
         for _ in 0..nops {
             // time advance around the rotation delay
             let dt = match r.below(6) { 0 => 0, 1 => g.min_delay.saturating_sub(1), 2 => g.min_delay, 3 => g.min_delay + 1, _ => r.below(2 * g.min_delay + 5) };
